@@ -2,6 +2,11 @@
 from .runner import Prop
 
 
+def _lint_table():
+    from . import translate
+    return translate.lint_table()
+
+
 class C08(Prop):
     id = "C08"
     coq_targets = ["Properties/C08.vo", "Corr/C08.vo"]
